@@ -317,6 +317,12 @@ class AsyncServer(Entity):
                 if hasattr(io_result, "__next__"):
                     # Return generator for I/O processing
                     def io_wrapper():
+                        # The CPU is free: hand the queue trigger to the engine
+                        # now. Returned after the I/O wait it would be stamped
+                        # in the past (and the wait would block the CPU queue).
+                        if result_events:
+                            yield 0.0, list(result_events)
+
                         io_start = self.now.to_seconds()
                         result = yield from io_result
                         io_time = self.now.to_seconds() - io_start
@@ -326,13 +332,10 @@ class AsyncServer(Entity):
                         # Complete the request
                         self._complete_request(original_event)
 
-                        # Return any events from I/O handler plus queue processing
-                        if result is None:
-                            return result_events if result_events else None
-                        elif isinstance(result, list):
-                            return result + result_events
-                        else:
-                            return [result, *result_events]
+                        # Return any events from the I/O handler
+                        if result is None or isinstance(result, list):
+                            return result
+                        return [result]
 
                     return io_wrapper()
 
